@@ -172,6 +172,16 @@ async def run_scenario(env, case, wall=600.0):
         return jid
 
     conn._run_batch_command = submit
+    inner_run = conn.connector.run  # every command of the connector goes through here: time it
+
+    async def timed_run(*a, **k):
+        t_cmd = time.time()
+        try:
+            return await inner_run(*a, **k)
+        finally:
+            spawn_s.append(time.time() - t_cmd)
+
+    conn.connector.run = timed_run
 
     def expected_out(i):
         return f"out-{case['nonce']}-{i}"
@@ -247,7 +257,7 @@ async def run_scenario(env, case, wall=600.0):
     t_start = time.time()
     idle_since = None
     stalled = False
-    grace = 120.0
+    grace = 60.0
     pending = set(tasks)
     while pending and time.time() - t_start < wall:
         done, pending = await asyncio.wait(pending, timeout=2.0)
@@ -258,7 +268,7 @@ async def run_scenario(env, case, wall=600.0):
         all_submitted = counts["ack"] + counts["run-raised"] + counts["run-return"] >= len(case["jobs"])
         if all_submitted and own_states and not any(x in ACTIVE for x in own_states):
             idle_since = idle_since or time.time()
-            if time.time() - idle_since > max(grace, 40 * max(spawn_s)):
+            if time.time() - idle_since > max(grace, 20 * max(spawn_s) + 4 * case["poll"]):
                 stalled = True
                 break
         else:
